@@ -55,6 +55,10 @@ impl Rng {
         }
         v
     }
+    pub fn bytes_between(&mut self, lo: usize, hi_incl: usize) -> Vec<u8> {
+        let n = self.usize(lo, hi_incl);
+        self.bytes(n)
+    }
     /// bytes of a chosen "class": random, constant runs, tie-rich small alphabet
     pub fn class_bytes(&mut self, n: usize) -> Vec<u8> {
         match self.below(6) {
